@@ -44,6 +44,30 @@ pub fn unmarshal_container(
     typ: &signature::Container,
     ctx: &mut UnmarshalContext,
 ) -> UnmarshalResult<params::Container<'static, 'static>> {
+    // a dict counts twice, once for the array and once for the dict entries
+    let levels = match typ {
+        signature::Container::Dict(_, _) => 2,
+        _ => 1,
+    };
+    let mut entered = 0;
+    let mut result = Ok(());
+    while entered < levels && result.is_ok() {
+        result = ctx.enter_container();
+        if result.is_ok() {
+            entered += 1;
+        }
+    }
+    let result = result.and_then(|_| unmarshal_container_contents(typ, ctx));
+    for _ in 0..entered {
+        ctx.leave_container();
+    }
+    result
+}
+
+fn unmarshal_container_contents(
+    typ: &signature::Container,
+    ctx: &mut UnmarshalContext,
+) -> UnmarshalResult<params::Container<'static, 'static>> {
     let param = match typ {
         signature::Container::Array(elem_sig) => {
             let bytes_in_array = ctx.read_u32()? as usize;
